@@ -6,3 +6,28 @@ void* verif_ctl_unguarded_product(size_t n, size_t k) { return _cbor_malloc(n * 
 
 /* *.signed-shift: a promoted byte shifted into the sign bit of int */
 unsigned verif_ctl_signed_shift(const unsigned char* s) { return (unsigned)(s[0] << 24) | s[1]; }
+
+/* *.narrowing: a declared count kept in 32 bits */
+unsigned verif_ctl_narrow_count;
+void verif_ctl_narrow(size_t count) { verif_ctl_narrow_count = (unsigned)count; }
+
+/* *.window-reads: the byte after the cursor read with only one byte known to remain */
+int verif_ctl_window_read(const unsigned char* p, size_t n) {
+  const unsigned char* end = p + n;
+  int s = 0;
+  while (p != end) {
+    if (*p == 0xE0) s += p[1];
+    p++;
+  }
+  return s;
+}
+
+/* *.window-writes: two bytes written after asking for one */
+size_t verif_ctl_window_write(unsigned char* buffer, size_t buffer_size) {
+  if (buffer_size >= 1) {
+    buffer[0] = 1;
+    buffer[1] = 2;
+    return 2;
+  }
+  return 0;
+}
